@@ -4,19 +4,48 @@ Every client command is one atomic step on a shared dictionary.  `hook(client_id
 is called BEFORE each command executes, which is where a lock-step scheduler parks a client
 thread; `trace` records (client_id, cmd, args, result) of every command.
 
+Key expiry as in redis (SET ... EX/PX/NX/XX/KEEPTTL/GET, SETEX, PSETEX, EXPIRE, PEXPIRE, TTL, PTTL, PERSIST)
+against a SERVER CLOCK `server.now` (seconds) that only the harness moves: `server.advance(seconds)`.
+A key whose deadline is <= now does not exist for any command (and is dropped from `server.data`, which
+other harness code reads directly).  Plain SET / GETSET / SETNX-on-a-missing-key / DEL clear an expiry,
+APPEND and SETRANGE keep it, as in redis.
+
 Use `install(server)` to make `redis.Redis(**params)` return clients of `server` for code that
 constructs its own connection (jug.backends.redis_store.redis_store)."""
+import datetime
 import fnmatch
+import math
 import threading
 
 
 class FakeServer:
     def __init__(self):
         self.data = {}
+        self.expires = {}           # key -> deadline on the server clock (absent: no expiry)
+        self.now = 0.0              # the server clock, in seconds; moved by advance() only
+        self.expired_log = []       # (time, key) of every key that expired
         self.lock = threading.RLock()
         self.trace = []
         self.hook = None
         self.nclients = 0
+
+    def advance(self, seconds):
+        """`seconds` pass on the server: keys whose time to live is over disappear"""
+        if seconds < 0:
+            raise ValueError('the server clock does not run backwards')
+        with self.lock:
+            self.now += seconds
+            self.purge()
+
+    def purge(self):
+        """drop expired keys (and deadlines of keys that are gone, e.g. after `data` was replaced)"""
+        if not self.expires:
+            return
+        for k in [k for k, t in self.expires.items() if t <= self.now or k not in self.data]:
+            if k in self.data and self.expires[k] <= self.now:
+                del self.data[k]
+                self.expired_log.append((self.now, k))
+            del self.expires[k]
 
     def client(self, cid=None):
         with self.lock:
@@ -32,6 +61,15 @@ def _b(x):
     return bytes(x)
 
 
+def _secs(x):
+    """an expiry argument as redis-py accepts it: int or datetime.timedelta"""
+    if isinstance(x, datetime.timedelta):
+        return int(x.total_seconds())
+    if isinstance(x, bool) or not isinstance(x, int):
+        raise TypeError('expiry must be an integer or a timedelta, got %r' % (x,))
+    return x
+
+
 class FakeRedis:
     def __init__(self, server, cid):
         self.server = server
@@ -42,6 +80,7 @@ class FakeRedis:
         if s.hook is not None:
             s.hook(self.cid, name, args)
         with s.lock:
+            s.purge()
             res = fn(s.data)
             s.trace.append((self.cid, name, args, res))
         return res
@@ -50,13 +89,124 @@ class FakeRedis:
         k = _b(k)
         return self._cmd('GET', (k,), lambda d: d.get(k))
 
-    def set(self, k, v):
+    def set(self, k, v, ex=None, px=None, nx=False, xx=False, keepttl=False, get=False, exat=None, pxat=None):
+        """SET key value [NX|XX] [GET] [EX s|PX ms|EXAT t|PXAT t|KEEPTTL] -> True, or None when NX/XX refuses
+        (with get=True: the old value).  Without an expiry option the key's time to live is cleared."""
         k, v = _b(k), _b(v)
+        s = self.server
+        if nx and xx:
+            raise ValueError("SET: 'nx' and 'xx' are mutually exclusive")
+        if sum(x is not None for x in (ex, px, exat, pxat)) + bool(keepttl) > 1:
+            raise ValueError('SET: more than one expiry option')
+        for name, x in (('ex', ex), ('px', px)):
+            if x is not None:
+                x = _secs(x)
+                if x <= 0:
+                    raise ValueError('invalid expire time in SET (%s=%r)' % (name, x))
+        opts = ()
+        if nx:
+            opts += (b'NX',)
+        if xx:
+            opts += (b'XX',)
+        if get:
+            opts += (b'GET',)
+        if ex is not None:
+            opts += (b'EX', _secs(ex))
+        if px is not None:
+            opts += (b'PX', _secs(px))
+        if exat is not None:
+            opts += (b'EXAT', exat)
+        if pxat is not None:
+            opts += (b'PXAT', pxat)
+        if keepttl:
+            opts += (b'KEEPTTL',)
+
+        def f(d):
+            old = d.get(k)
+            if (nx and old is not None) or (xx and old is None):
+                return old if get else None
+            d[k] = v
+            if ex is not None:
+                s.expires[k] = s.now + _secs(ex)
+            elif px is not None:
+                s.expires[k] = s.now + _secs(px) / 1000.0
+            elif exat is not None:
+                s.expires[k] = float(exat)
+            elif pxat is not None:
+                s.expires[k] = pxat / 1000.0
+            elif not keepttl:
+                s.expires.pop(k, None)
+            s.purge()
+            return old if get else True
+        return self._cmd('SET', (k, v) + opts, f)
+
+    def setex(self, k, seconds, v):
+        k, v = _b(k), _b(v)
+        secs = _secs(seconds)
+        if secs <= 0:
+            raise ValueError('invalid expire time in SETEX')
+        s = self.server
 
         def f(d):
             d[k] = v
+            s.expires[k] = s.now + secs
             return True
-        return self._cmd('SET', (k, v), f)
+        return self._cmd('SETEX', (k, secs, v), f)
+
+    def psetex(self, k, ms, v):
+        k, v = _b(k), _b(v)
+        ms = _secs(ms)
+        if ms <= 0:
+            raise ValueError('invalid expire time in PSETEX')
+        s = self.server
+
+        def f(d):
+            d[k] = v
+            s.expires[k] = s.now + ms / 1000.0
+            return True
+        return self._cmd('PSETEX', (k, ms, v), f)
+
+    def _expire(self, cmd, k, amount, scale):
+        k = _b(k)
+        amount = _secs(amount)
+        s = self.server
+
+        def f(d):
+            if k not in d:
+                return False
+            s.expires[k] = s.now + amount / scale
+            s.purge()               # a time to live <= 0 deletes the key
+            return True
+        return self._cmd(cmd, (k, amount), f)
+
+    def expire(self, k, seconds):
+        return self._expire('EXPIRE', k, seconds, 1.0)
+
+    def pexpire(self, k, ms):
+        return self._expire('PEXPIRE', k, ms, 1000.0)
+
+    def _ttl(self, cmd, k, scale):
+        k = _b(k)
+        s = self.server
+
+        def f(d):
+            if k not in d:
+                return -2
+            if k not in s.expires:
+                return -1
+            return int(math.ceil((s.expires[k] - s.now) * scale))
+        return self._cmd(cmd, (k,), f)
+
+    def ttl(self, k):
+        return self._ttl('TTL', k, 1)
+
+    def pttl(self, k):
+        return self._ttl('PTTL', k, 1000)
+
+    def persist(self, k):
+        k = _b(k)
+        s = self.server
+        return self._cmd('PERSIST', (k,), lambda d: k in d and s.expires.pop(k, None) is not None)
 
     def append(self, k, v):
         k, v = _b(k), _b(v)
@@ -79,9 +229,12 @@ class FakeRedis:
     def getset(self, k, v):
         k, v = _b(k), _b(v)
 
+        s = self.server
+
         def f(d):
             old = d.get(k)
             d[k] = v
+            s.expires.pop(k, None)
             return old
         return self._cmd('GETSET', (k, v), f)
 
@@ -103,6 +256,7 @@ class FakeRedis:
             for k in ks:
                 if k in d:
                     del d[k]
+                    self.server.expires.pop(k, None)
                     n += 1
             return n
         return self._cmd('DEL', ks, f)
